@@ -558,14 +558,21 @@ def run_cells(cells, seed, pool):
             by_exe.setdefault(c.exe, []).append(c)
 
     def one(exe):
-        return exe, sh([exe, str(seed)], timeout=RUN_TIMEOUT)
+        rc, out = sh([exe, str(seed)], timeout=RUN_TIMEOUT)
+        died = {}
+        if 'C19-DONE' not in out:
+            # the process died (signal / abort / timeout): find the entries that kill it
+            for c in by_exe[exe]:
+                rc1, out1 = sh([exe, str(seed), str(c.idx)], timeout=RUN_TIMEOUT)
+                if 'C19-DONE' not in out1:
+                    died[c.idx] = (rc1, (out1.strip().splitlines() or ['(no output)'])[-1][:300])
+        return exe, rc, out, died
 
-    for exe, (rc, out) in pool.map(one, list(by_exe)):
+    for exe, rc, out, died in pool.map(one, list(by_exe)):
         cs = sorted(by_exe[exe], key=lambda c: c.idx)
         byname = {c.name: c for c in cs}
         for c in cs:
             c.status = 'ok'
-        done = False
         for l in out.splitlines():
             m = re.match(r'(MISMATCH|EXCEPTION) (\S+) set=(\d+) (.*)', l)
             if m and m.group(2) in byname:
@@ -573,17 +580,15 @@ def run_cells(cells, seed, pool):
                 if c.status == 'ok':
                     c.status = 'mismatch' if m.group(1) == 'MISMATCH' else 'exception'
                     c.why = '%s at run time: %s (input set %s, seed %d)' % (m.group(1).lower(), m.group(4)[:300], m.group(3), seed)
-            if l.startswith('C19-DONE'):
-                done = True
-        if not done:
-            # the process died (signal / abort / timeout): find the entries that kill it
-            for c in cs:
-                if c.status != 'ok':
-                    continue
-                rc1, out1 = sh([exe, str(seed), str(c.idx)], timeout=RUN_TIMEOUT)
-                if 'C19-DONE' not in out1:
+        for c in cs:
+            if c.idx in died:
+                c.status = 'crash'
+                c.why = 'process died at run time (status %d, seed %d): %s' % (died[c.idx][0], seed, died[c.idx][1])
+        if 'C19-DONE' not in out and not died:
+            for c in cs:   # dies only when the entries run in sequence: blame the program as a whole
+                if c.status == 'ok':
                     c.status = 'crash'
-                    c.why = 'process died at run time (status %d): %s' % (rc1, (out1.strip().splitlines() or ['(no output)'])[-1][:300])
+                    c.why = 'program of %d entries died at run time (status %d) although every entry passes alone' % (len(cs), rc)
 
 
 def replay_source(cell, seed, cxx, why):
@@ -637,15 +642,21 @@ def run(ctx, prop, stage, tier, res):
     if tier == 'thorough':
         compilers.append('clang++')
     single_groups = set(g[0] for g in GROUPS[:3]) if tier == 'thorough' else set()
-    # stale replays of a previous run are not evidence of this one
+    # stale replays written by a previous run of this module are not evidence of this one
     rdir = os.path.join(ctx.root, 'replays', prop)
     if os.path.isdir(rdir):
         for f in os.listdir(rdir):
-            if f.endswith('.cpp') or f.endswith('.json'):
-                try:
+            if not f.endswith('.cpp'):
+                continue
+            try:
+                with open(os.path.join(rdir, f), errors='replace') as fh:
+                    mine = fh.readline().startswith('// property C19 (artivis/manif)')
+                if mine:
                     os.remove(os.path.join(rdir, f))
-                except OSError:
-                    pass
+                    if os.path.exists(os.path.join(rdir, f[:-4] + '.json')):
+                        os.remove(os.path.join(rdir, f[:-4] + '.json'))
+            except OSError:
+                pass
 
     cells_total = cells_failed = cells_ran = n_programs = 0
     keep = set()
@@ -687,22 +698,31 @@ def run(ctx, prop, stage, tier, res):
             run_cells(all_cells, ctx.seed, pool)
             seen_replay = set()
             nfail = 0
+            suffix = '' if cxx == compilers[0] else '-' + sanitize(os.path.basename(cxx))
+            failing = []
             for c in all_cells:
                 entry_names.add(c.name)
                 if c.status == 'ok':
                     cells_ran += 1
                     continue
                 nfail += 1
-                suffix = '' if cxx == compilers[0] else '-' + sanitize(os.path.basename(cxx))
-                if (c.ident(), suffix) in seen_replay:
-                    continue
-                seen_replay.add((c.ident(), suffix))
-                if c.status != 'compile-fail':
-                    # confirm the run-time failure with the stand-alone program
-                    r = b.build(replay_source(c, ctx.seed, cxx, c.why), c.ident())
-                    if r['ok']:
-                        rc1, out1 = sh([r['exe']], timeout=RUN_TIMEOUT)
-                        c.why += ' [stand-alone program: exit status %d]' % rc1
+                if c.ident() not in seen_replay:
+                    seen_replay.add(c.ident())
+                    failing.append(c)
+
+            def confirm(c):
+                # run-time failures are confirmed with the stand-alone single-entry program
+                if c.status == 'compile-fail':
+                    return
+                r = b.build(replay_source(c, ctx.seed, cxx, c.why), c.ident())
+                if r['ok']:
+                    rc1, out1 = sh([r['exe']], timeout=RUN_TIMEOUT)
+                    c.why += ' [stand-alone program: exit status %d]' % rc1
+                else:
+                    c.why += ' [stand-alone program does not build: %s]' % first_error_line(r['out'], r['src'])
+
+            list(pool.map(confirm, failing))
+            for c in failing:
                 path = write_replay(ctx, prop, c, ctx.seed, cxx, stage, suffix)
                 res['violations'].append({'replay': path, 'why': ('[%s] ' % cxx if len(compilers) > 1 else '') + c.why})
                 fail_list.append({'cell': c.ident(), 'compiler': cxx, 'status': c.status, 'why': c.why, 'snippet': c.code})
